@@ -248,6 +248,16 @@ def gen_world(rng, opts=None):
                 bars[j].update(open=pc, close=pc, high=pc, low=pc, volume=0.0, total_turnover=0.0)
             # re-chain limits after the suspension
         w.stock_bars[sid] = bars
+    # a successor's prices are consistent with the conversion: on the converted stock's last day it closes at close / ratio
+    for sid, tf in w.transform.items():
+        last = w.stock_bars[sid][-1]
+        sb = w.stock_bars[tf['successor']]
+        ref = [b for b in sb if b['d'] == last['d']]
+        if ref and ref[0]['close'] > 0:
+            f = (last['close'] / tf['share_conversion_ratio']) / ref[0]['close']
+            for b in sb:
+                for k in ('open', 'close', 'high', 'low', 'limit_up', 'limit_down', 'total_turnover'):
+                    b[k] = b[k] * f
     # corporate actions
     if o['actions']:
         for sid in STOCKS[:2] + [ETF]:
@@ -256,11 +266,12 @@ def gen_world(rng, opts=None):
             if len(bd) < 9:
                 continue
             divs = []
-            if rng.random() < 0.6:
+            forced = o.get('force_dividend') and sid == STOCKS[0]
+            if rng.random() < 0.6 or forced:
                 i = rng.randint(1, len(bd) - 5)
                 dc = rng.choice([1.0, 2.5, 0.5])
                 exi = i + 1
-                payi = i + rng.randint(1, 3)
+                payi = i + (rng.randint(2, 4) if forced else rng.randint(1, 3))
                 divs.append((dint(bd[i]), dint(bd[max(i - 1, 0)]), dc, dint(bd[exi]), dint(bd[payi]), 10.0))
                 if o['overlapping_dividends'] and i + 2 < len(bd) - 3:
                     i2 = i + 1
@@ -268,8 +279,10 @@ def gen_world(rng, opts=None):
                                  dint(bd[min(i2 + rng.randint(1, 3), len(bd) - 1)]), 10.0))
             if divs:
                 w.dividends[sid] = divs
-            if rng.random() < 0.5:
+            if rng.random() < 0.5 or (forced and o.get('same_day_split')):
                 i = rng.randint(3, len(bd) - 3)
+                if divs and o.get('same_day_split') and rng.random() < 0.8:
+                    i = [k for k, d in enumerate(bd) if dint(d) == divs[0][3]][0]      # split goes ex on the dividend's ex-date
                 sr = rng.choice([2.0, 1.5, 0.5, 1.25] if o['integral_splits'] else [2.0, 1.5, 1.15, 0.5, 1.3])
                 w.splits[sid] = [(dint(bd[i]), sr)]
     for sid in w.stock_bars:
